@@ -860,6 +860,28 @@ def mutate_everywhere(v):
     if ok: n += r
   return n
 
+def permute_keys(v, rng=None):
+  """The same value with the items of every dict (not of objects: their field order is the class's) in another order:
+  reversed, or shuffled when a generator is given."""
+  if v[0] in 'FX': return v
+  if is_hyper(v):
+    cs = [permute_keys(c, rng) for c in cands_of(v)]
+    return [v[0], cs] + v[2:] if v[0] == '1' else v[:2] + [cs] + v[3:]
+  if v[0] == 'D':
+    items = [[k, permute_keys(x, rng)] for k, x in v[1]]
+    if rng is None: items = items[::-1]
+    else: rng.shuffle(items)
+    return ['D', items]
+  if v[0] == 'l': return ['l', [permute_keys(x, rng) for x in v[1]]]
+  if v[0] == 'O': return ['O', v[1], [[k, permute_keys(x, rng)] for k, x in v[2]]]
+  return v
+
+def to_plain(v):
+  """The real value with plain Python dicts / lists where the description has dicts / lists above any object or placeholder."""
+  if v[0] == 'D': return {k: to_plain(x) for k, x in v[1]}
+  if v[0] == 'l': return [to_plain(x) for x in v[1]]
+  return to_pg(v)
+
 def ends_sdna(s, sd, pick):
   """sd with every float decision replaced by the lower (pick=1) or upper (pick=2) end of its range."""
   out = []
@@ -1092,6 +1114,23 @@ def process_template(job, prebuilt=None):
         elif G.freeze(G.dna_to_tree(d3)) != G.freeze(G.dna_to_tree(dna)):
           okv, _ = attempt(lambda: sp.validate(d3))
           rec.hit('C13/encode-decode/%s/%s' % ('returns-other-dna' if okv else 'returns-invalid-dna', feat), 'encode(decode(%s)) = %s although the candidates are distinguishable; value %s; template %s (%s)' % (dna, d3, describe(vd), td, wd), dcase)
+      # an equal value with another dict key order is the same value: it must encode to the same DNA
+      # (as pg.Dict and as plain dict / list containers; nested dicts permuted too)
+      if any(n[0] == 'D' and len(n[1]) > 1 for _, n in desc_paths(vd) if not is_hyper(n)):
+        perm = permute_keys(vd, rng if di % 2 else None)
+        if perm != vd:
+          rec.oracle += 1
+          for how, build in (('pg.Dict', lambda: to_pg(perm)), ('plain-dict', lambda: to_plain(perm))):
+            okp, vp = attempt(build)
+            if not okp: rec.hist('permuted_unconstructible', type(vp).__name__); continue
+            okq_, dq = attempt(lambda: tm.encode(vp))
+            if how == 'pg.Dict':
+              rec.add([3, qtr, wtr, ttr, t_tr(perm)], [res_dna(okq_, dq)], dict(op='encode-permuted-keys', template=td, where=wd, value=describe(perm)))
+              rec.count(('encp', trlib.to_line(wtr), trlib.to_line(ttr), trlib.to_line(t_tr(perm))), nontrivial=True, kind='encode-permuted-keys')
+            if dist and (not okq_ or G.freeze(G.dna_to_tree(dq)) != G.freeze(G.dna_to_tree(dna))):
+              rec.hit('C13/encode-decode/permuted-dict-keys/%s' % how, 'the value %s (%s) equals decode(%s) = %s up to dict key order, but encodes to %s; template %s (%s)' % (
+                  describe(perm), how, dna, describe(vd), dq if okq_ else '%s: %s' % (type(dq).__name__, str(dq)[:100]), td, wd), dcase)
+          unchanged('encode-permuted-keys', dict(sdna=sd))
       if di < 2:
         okm, vm = attempt(lambda: pg.materialize(hv, dna, where=fn))
         rec.oracle += 1
@@ -1250,6 +1289,8 @@ CORPUS = [
     ('corpus:list-vs-dict', ['1', [['l', [['L', 1]]], ['D', [['a', ['L', 1]]]]], None, None], ['none']),
     # object_template_test.py / docstring examples
     ('corpus:docstring', None, ['none']),
+    # encode followed the INPUT's key order (fixed)
+    ('corpus:encode-key-order', ['D', [['a', ['1', [['L', 1], ['L', 2]], None, None]], ['b', ['1', [['L', 1], ['L', 2], ['L', 3]], None, None]], ['c', ['D', [['y', ['1', [['L', 'p'], ['L', 'q']], None, None]], ['x', ['F', 0.0, 1.0, None, None]]]]]]], ['none']),
     ('corpus:constant', ['D', [['a', ['L', 0]]]], ['none']),
     ('corpus:root-leaf', ['L', 1], ['none']),
 ]
